@@ -114,7 +114,13 @@ def r_bitmap(idx, rep, rule="R-BITMAP"):
             iff = pm.get(remap)
             ok = False
             if isinstance(iff, ast.If) and ncmp(iff.test) is not None and ncmp(iff.test)[0] == "<":
-                pts = [s for s in iff.body if isinstance(s, ast.Assign) and u(s.value) == ptgt]
+                pts = []
+                for s in iff.body:
+                    if not isinstance(s, ast.Assign) or len(s.targets) != 1:
+                        continue
+                    t_, v_ = s.targets[0], s.value
+                    pairs = list(zip(t_.elts, v_.elts)) if isinstance(t_, ast.Tuple) and isinstance(v_, ast.Tuple) and len(t_.elts) == len(v_.elts) else [(t_, v_)]
+                    pts += [a_ for a_, b_ in pairs if u(b_) == ptgt]
                 ok = len(pts) == 1
             rep.check(ok, rule, key + " point-with-mask", "%s:%d" % (f.module.relpath, remap.lineno),
                       "the candidate point `%s` and its mask are not adopted together under a strict `<` comparison" % ptgt,
